@@ -173,6 +173,7 @@ func runC03(r *ev.Run) {
 	})
 
 	c03DirectedStaleExpunge(r)
+	c03DirectedCrossMailbox(r)
 
 	sizes := []int{2, 501, 1001}
 	if r.Thorough() {
